@@ -10,6 +10,8 @@ CONSTANTS
   PRICE = {10}
   QTY = {1}
   BUNDLE = {"lim"}
+  STALL = {}
+  LateResponseOK = TRUE
 INVARIANTS TypeOK AtMostOne ExactlyOnce Kind Attribution
 PROPERTIES Stable
 CHECK_DEADLOCK FALSE
